@@ -474,17 +474,49 @@ def boot_time_facts(tree):
     return {"key": key, "idx": idx}
 
 
-def create_uses_cached_boot(tree):
-    fn = _proc_fn(tree, "create_time")
-    for st in fn.body:
-        if isinstance(st, ast.Assign) and len(st.targets) == 1 and _is_name(st.targets[0], "bt"):
-            s = ast.unparse(st.value)
-            if s == "BOOT_TIME or boot_time()":
-                return True
-            if s == "boot_time()":
-                return False
-            raise NotRecognised("create_time: bt = %s" % s)
-    raise NotRecognised("create_time: bt not assigned")
+def create_boot(tree):
+    """HOW `_pslinux.Process.create_time` obtains the boot time it adds. TOTAL — always a string:
+         "or"        `bt = BOOT_TIME or boot_time()`   (truthiness: a cached 0.0 counts as unset and /proc/stat is re-read)
+         "isNotNone" `bt = BOOT_TIME if BOOT_TIME is not None else boot_time()`   (a cached value is used, 0.0 included)
+         "fresh"     `bt = boot_time()`   (the cache is never consulted)
+         "other:<text>"  anything else (the text of the expression, or what is wrong with the assignment)
+       `bt` is the name the returned expression adds (fact iStart / create_time_key insists on `(ctime / CLOCK_TICKS) + bt`);
+       it must be assigned exactly once, at the top level of the function, and neither BOOT_TIME nor boot_time may be
+       rebound inside the function."""
+    try:
+        fn = _proc_fn(tree, "create_time")
+    except NotRecognised as e:
+        return "other:%s" % e
+    stores = [n for n in ast.walk(fn) if isinstance(n, ast.Name) and isinstance(n.ctx, (ast.Store, ast.Del))]
+    rebound = sorted({n.id for n in stores if n.id in ("BOOT_TIME", "boot_time")}
+                     | {a.arg for a in ast.walk(fn) if isinstance(a, ast.arg) and a.arg in ("BOOT_TIME", "boot_time", "bt")}
+                     | {nm for g in ast.walk(fn) if isinstance(g, (ast.Global, ast.Nonlocal)) for nm in g.names
+                        if nm in ("BOOT_TIME", "boot_time", "bt")})
+    if rebound:
+        return "other:%s rebound inside create_time" % ",".join(rebound)
+    n_bt = len([n for n in stores if n.id == "bt"])
+    top = [st for st in fn.body if isinstance(st, ast.Assign) and len(st.targets) == 1 and _is_name(st.targets[0], "bt")]
+    if n_bt != 1 or len(top) != 1:
+        return "other:bt assigned %d times (%d at top level)" % (n_bt, len(top))
+    v = top[0].value
+
+    def is_name(n, ident):
+        return isinstance(n, ast.Name) and n.id == ident and isinstance(n.ctx, ast.Load)
+
+    def is_boot_call(n):
+        return isinstance(n, ast.Call) and is_name(n.func, "boot_time") and not n.args and not n.keywords
+
+    if is_boot_call(v):
+        return "fresh"
+    if isinstance(v, ast.BoolOp) and isinstance(v.op, ast.Or) and len(v.values) == 2 \
+            and is_name(v.values[0], "BOOT_TIME") and is_boot_call(v.values[1]):
+        return "or"
+    if isinstance(v, ast.IfExp) and is_name(v.body, "BOOT_TIME") and is_boot_call(v.orelse) \
+            and isinstance(v.test, ast.Compare) and len(v.test.ops) == 1 and isinstance(v.test.ops[0], ast.IsNot) \
+            and is_name(v.test.left, "BOOT_TIME") and len(v.test.comparators) == 1 \
+            and isinstance(v.test.comparators[0], ast.Constant) and v.test.comparators[0].value is None:
+        return "isNotNone"
+    return "other:%s" % ast.unparse(v)
 
 
 def threads_scan_facts(tree):
@@ -1011,8 +1043,8 @@ def facts(snap, F):
     F.try_add("tmapMemoized", "Bool", lambda: B(tm().need("memoized")), "get_terminal_map is decorated with @memoize")
     F.try_add("btimeKey", "List Nat", lambda: extract.lean_bytes(bt()["key"]), "boot_time(): line.startswith(KEY)")
     F.try_add("btimeIdx", "Nat", lambda: extract.lean_nat(bt()["idx"]), "boot_time(): float(line.strip().split()[IDX])")
-    F.try_add("createUsesCachedBoot", "Bool", lambda: B(create_uses_cached_boot(tree)),
-              "create_time(): bt = BOOT_TIME or boot_time()")
+    F.try_add("createBoot", "String", lambda: extract.lean_str(create_boot(tree)),
+              "create_time(): how bt is obtained: or (BOOT_TIME or boot_time()) | isNotNone (BOOT_TIME if BOOT_TIME is not None else boot_time()) | fresh (boot_time()) | other:<text>")
     F.try_add("threadsSorts", "Bool", lambda: B(ts().need("sorts")), "threads(): thread_ids.sort() before the loop")
     F.try_add("threadsSkipsVanished", "Bool", lambda: B(ts().need("skipsVanished")),
               "threads(): except (FileNotFoundError, ...): hit_enoent = True; continue")
